@@ -83,6 +83,15 @@ def gen(rng, tier):
         for ds in (shapes if tier == "thorough" else shapes[:2] + [rng.choice(shapes[2:])]):
             for e in ((2, 3, 4) if tier == "thorough" else (2, 3)):
                 emit(signed(rng, val(ds)), e)
+    # sparse bases (1 + B^k, B^j + B^k + 1, one magic digit) through TWO and more squarings: the operand of the second
+    # squaring is itself sparse with zero top digits in its halves (C12-z1: a dedicated Karatsuba squaring that skips
+    # the half comparison on an odd split)
+    for n in ([tS + 2, 65, 66, 100, 131] + ([tK + 2, 200] if tier == "thorough" else [])):
+        for ds in ([1] + [0] * (n - 2) + [1], [1] + [0] * (n // 2 - 1) + [1] + [0] * (n - n // 2 - 2) + [1],
+                   [MAX] + [0] * (n - 2) + [rng.choice([1, MAX, 0xAAAAAAAAAAAAAAAB])]):
+            for e in ((2, 3, 4, 5, 8) if tier == "thorough" else (2, 4, rng.choice([3, 5, 6]))):
+                if n * e <= 700:
+                    emit(signed(rng, val(ds)), e)
     # type maxima with bases 0 / +-1 (the loop runs its full width)
     for (t, w) in TYPES:
         for e in [(1 << w) - 1, (1 << w) - 2, 1 << (w - 1), (1 << (w - 1)) + 1]:
